@@ -17,7 +17,10 @@
 EXTENDS Naturals, Sequences, FiniteSets, TLC, Json
 
 CONSTANTS MaxLen, Names, Emit,
-          UseRoles, UseDecos   \* sub-vocabulary of this run (the full vocabulary is Roles x Decos below)
+          UseRoles, UseDecos,  \* sub-vocabulary of this run (the full vocabulary is Roles x Decos below)
+          UseAsync             \* subset of BOOLEAN: may a definition be `async def`?  No action reads the flag
+                               \* (visit_asyncfunctiondef delegates to handle_function with a FRESH label set,
+                               \* so nothing may leak from one coroutine to the next): replay dimension, like deco
 
 Roles == {"plain", "overload", "property", "setter", "deleter"}
 \* Every definition may carry one more, unrelated pass-through decorator, above or below the one that
@@ -137,8 +140,8 @@ Visit ==
   /\ cursor' = cursor + 1
   /\ UNCHANGED <<prog, scope>>
 
-ASSUME UseRoles \subseteq Roles /\ UseDecos \subseteq Decos
-Defs == {d \in [name : Names, role : UseRoles, deco : UseDecos] : d.role = "plain" => d.deco # "below"}
+ASSUME UseRoles \subseteq Roles /\ UseDecos \subseteq Decos /\ UseAsync \subseteq BOOLEAN
+Defs == {d \in [name : Names, role : UseRoles, deco : UseDecos, isasync : UseAsync] : d.role = "plain" => d.deco # "below"}
 Progs == UNION {[1..n -> Defs] : n \in 1..MaxLen}
 
 Init ==
